@@ -124,6 +124,17 @@ def compare_trace(ctx, ad: Adapter, inst: dict, actions: List[int], masks: List[
     if f.get("adm") != "1":
         ctx.disagreement(f"{ad.name}: model mask does not admit an action the real mask offered ({what})",
                          {"inst": inst, "actions": actions})
+    # an environment REGENERATED from the source (harness/rowtrans.py) is run by the driver next to the model:
+    # its trace is compared with the real one too (checks the translator independently of the hand-written model)
+    if "genmasks" in f:
+        ctx.count(f"{ad.name}.regenerated-env-traces-compared")
+        g_masks = f["genmasks"].split(",")
+        g_done = [int(c) for c in f.get("gendone", "")]
+        if g_masks != masks or g_done != done or f.get("genadm") != "1":
+            k = next((k for k in range(min(len(masks), len(g_masks))) if masks[k] != g_masks[k]), -1)
+            ctx.disagreement(f"{ad.name}: regenerated env (rowtrans) differs from the real env ({what})",
+                             {"inst": inst, "actions": actions, "step": k, "real": masks[k] if k >= 0 else [masks, done],
+                              "regenerated": g_masks[k] if k >= 0 else [g_masks, g_done, f.get("genadm")]})
     return f
 
 
